@@ -215,13 +215,16 @@ def r12_2(ctx, counts: dict[str, int]) -> RuleResult:
 
 def run(ctx) -> dict:
     counts: dict[str, int] = {}
-    results = [r12_1(ctx, counts), r12_2(ctx, counts)]
+    from .c13_unicode import r13_3
+    results = [r12_1(ctx, counts), r12_2(ctx, counts), r13_3(ctx, counts)]
     return {
         'results': results, 'counts': counts,
         'explanation':
             'Decided statically: (1) the four XPath regex functions agree on the set of '
             'exception classes from pattern translation/compilation that they convert to '
             'FORX0002 (sibling cross-check; the required set is the union over the siblings); '
+            '(3) the class-subtraction operator of the translator removes the subtrahend\'s '
+            'positive members on every path (R13.3, shared with C13); '
             '(2) argument text interpolated into markup is escaped before the markup is parsed '
             '(forward taint over the CFG of every function that calls an XML text parser).',
         'not_decided':
